@@ -21,6 +21,7 @@ import (
 	"path/filepath"
 	"strings"
 	"sync"
+	"syscall"
 	"testing"
 	"time"
 
@@ -232,6 +233,11 @@ func newWorld(t *testing.T) *world {
 	w.http = &http.Client{Timeout: 60 * time.Second, Transport: &http.Transport{MaxIdleConnsPerHost: 16},
 		CheckRedirect: func(*http.Request, []*http.Request) error { return http.ErrUseLastResponse }}
 	w.evil = newEvil()
+	// node start-up picks "free" ports and binds them a moment later: the shards of one check take turns
+	if lf, err := os.OpenFile("/tmp/verif-x12-start.lock", os.O_CREATE|os.O_RDWR, 0o666); err == nil {
+		_ = syscall.Flock(int(lf.Fd()), syscall.LOCK_EX)
+		defer func() { _ = syscall.Flock(int(lf.Fd()), syscall.LOCK_UN); lf.Close() }()
+	}
 	w.A = startNode(t, w, "A", pdir)
 	w.B = startNode(t, w, "B", pdir)
 	for _, s := range clientTenants {
